@@ -44,6 +44,11 @@ CHECKS = {
    note="One recorded finding (known_findings.json): out-of-space redirect into a non-consuming handler. Trusted: as C02; the alarm-based confirmation.",
    technique="Lean-proved spin checker with abstraction refinement on exported machines + binary runs under alarm",
    design="5/C04"),
+ "C11": dict(cat="proof",
+   text="Partial by nature: Lean theorems prove, for every machine with in-range targets and every option set, that every goto the feed/end templates emit has its label (C11_feed_labels_closed, C11_end_labels_closed); the label model is compared with the labels and gotos scraped from the real generated text for every program x option combination. The compilers' verdicts are explored, not proved: programs x a covering array over 16 option axes (pairs quick, triples thorough) compiled with gcc -std=c99 -Wall -Werror -Wno-unused-label, the header included twice as C and as C++, and the declared API scraped from the header and compared with the documented rule.",
+   note="Not modelled: the C type system and warning set (compiler verdicts are exploration). Trusted: gcc/g++, the scraper.",
+   technique="Lean label-closure theorem tied to scraped text + covering-array compilation",
+   design="5/C11"),
 }
 
 def main():
